@@ -12,7 +12,8 @@ import json
 import os
 
 from vlib.hostlist import (HL, Cli, WFGen, LIMIT, hx, unhx, parse_probe, parse_spec, same_answer, expand1, expand2,
-                           feat_big, feat_longplain, is_d17, gen_malformed, exhaustive, names_field, VERIF_CORPUS, pinned_classes, cli_phase)
+                           feat_big, feat_longplain, is_d17, gen_malformed, exhaustive, names_field, VERIF_CORPUS, pinned_classes, cli_phase,
+                           poisoned_classes, state_pairs, POISONS, STATE_GOOD)
 
 LEVEL = "proof"
 PROPS = "PdshVerif.Props.C01"
@@ -89,10 +90,12 @@ def show(b):
     return None if b is None else b[:120].decode("latin1")
 
 
-def judge(ctx, s, exp, impl, model, origin):
+def judge(ctx, s, exp, impl, model, origin, extra=None):
     """exp = expected first-level host list (bytes names); returns True when the oracle was applicable"""
     case = {"expr": s[:400].decode("latin1"), "expr_hex": hx(s) if len(s) <= 20000 else hx(s[:20000]) + "..",
             "origin": origin}
+    if extra:
+        case.update(extra)
     if not same_answer(impl, model):
         ctx.disagreement("hl model vs hostlist.c (probe)", "expr %r: impl `%s` model `%s`" %
                          (s[:200], impl[:300], model[:300]), case)
@@ -130,8 +133,8 @@ def run(ctx):
     ctx_only = None
     if ctx.replay:
         rcase = json.load(open(ctx.replay)).get("case", {})
-        if str(rcase.get("origin", "")).startswith("ctx-") or rcase.get("origin") == "find":
-            ctx_only = rcase        # a -x / WCOLL-file / look-up case: only that case is run again
+        if str(rcase.get("origin", "")).startswith("ctx-") or rcase.get("origin") in ("find", "after-call"):
+            ctx_only = rcase        # a -x / WCOLL-file / look-up / after-a-call case: only that case is run again
         elif "expr_hex" not in rcase:
             ctx.replay = None       # a theorem/correspondence replay names no input: the whole check is the replay
     ctx.gen_consts(["hostlist"])
@@ -153,7 +156,12 @@ def run(ctx):
                    "purely numeric names, paddings, repeats, two brackets -- plus generated pairs; expected = expansion "
                    "of W minus the names of the expansion of X) and WCOLL / `-w ^FILE` (one expression per line; pinned "
                    "line lengths k*(LINEBUFSIZE-1)-1 and neighbours, LINEBUFSIZE read from the tree; expected = the "
-                   "lines' expansions in order); expected = AST-level expansion "
+                   "lines' expansions in order); STATE LEFT OVER (errno tested but never cleared, the previous bracket's "
+                   "range table, the first element's width): every pinned text as the word after each poisoning word "
+                   "(20+ digit suffix, purely numeric overflow, bracket with more ranges, long bracket, wide first "
+                   "element) in one hostlist_create, in the call AFTER hostlist_create(poison) incl. failed calls "
+                   "(harness op sprobe: nothing reset in between), look-up / -x / file lines / -w words after an "
+                   "ERANGE name; expected = AST-level expansion "
                    "(Python) = string-level expansion (Lean spec); non-trivial = expansion has >= 2 hosts and the text "
                    ">= 1 bracket group; distinct = distinct rendered text"}
     dist = {"wellformed": 0, "valid-from-malformed-stream": 0, "exhaustive": 0, "corpus": 0, "cli": 0, "nth": 0,
@@ -170,6 +178,9 @@ def run(ctx):
         for s in load_corpus():
             dist["corpus"] += 1
             yield (s, None, "corpus")
+        for s in poisoned_classes():
+            dist["pinned-after-poison-word"] = dist.get("pinned-after-poison-word", 0) + 1
+            yield (s, None, "pinned-poisoned")
         for s in pinned_classes():
             dist["pinned-classes"] = dist.get("pinned-classes", 0) + 1
             yield (s, None, "pinned")
@@ -245,6 +256,7 @@ def run(ctx):
         dist["forked"] = hl.nfork
         if not ctx.replay:
             dist["generator"] = gen.dist
+            state_check(ctx, hl, dist, cov)
             nth_check(ctx, hl, nth_sample, dist)
             ctx.log("nth done")
             find_check(ctx, hl, nth_sample, dist, cov)
@@ -257,6 +269,9 @@ def run(ctx):
             rep = json.load(open(ctx.replay))
             if ctx_only is not None and ctx_only.get("origin") == "find":
                 find_check(ctx, hl, [], dist, cov, only=ctx_only)
+            elif ctx_only is not None and ctx_only.get("origin") == "after-call":
+                state_check(ctx, hl, dist, cov, only=(ctx_only.get("poison", "replay"), unhx(ctx_only["poison_hex"]),
+                                                      unhx(ctx_only["expr_hex"])))
             elif ctx_only is not None:
                 context_check(ctx, hl, dist, cov, only=ctx_only)
             elif rep["case"].get("origin") == "cli":
@@ -279,6 +294,25 @@ def run(ctx):
                       "Gen/Hostlist.lean regenerated from /repo (MAX_RANGE, MAX_RANGES, MAX_HOST_SUFFIX)",
                       "harness/hl_harness.c, vlib/hostlist.py (generators, AST expander), gcc, ASan/UBSan"],
         checker_cmd="lake build PdshVerif.Props.C01 && #print axioms on every theorem of Props/C01.lean")
+
+
+def state_check(ctx, hl, dist, cov, only=None):
+    """STATE CARRIED FROM ONE LIBRARY CALL TO THE NEXT: every pinned well-formed text is probed in the call after
+    hostlist_create(POISON) (harness op `sprobe`: errno, stack and allocator as that call left them -- what pdsh
+    has between two -w / -x / file-line words).  The expansion of a text does not depend on what was parsed before."""
+    trip = [only] if only is not None else state_pairs()
+    spec = hl.spec([t for _, _, t in trip])
+    keep = [(tr, parse_spec(sp)) for tr, sp in zip(trip, spec) if sp.startswith("ok")]
+    keep = [(tr, v) for tr, v in keep if not v.get("note64")]
+    if not keep:
+        return
+    impl, model = hl.sprobe_all([(p, t) for (_, p, t), _ in keep])
+    dist["after-poison-call"] = {}
+    for ((note, p, t), v), a, b in zip(keep, impl, model):
+        dist["after-poison-call"][note] = dist["after-poison-call"].get(note, 0) + 1
+        cov["evaluations"] += 1
+        judge(ctx, t, v["hosts1"], a, b, "after-call",
+              extra={"poison": note, "poison_hex": hx(p), "previous_call": "hostlist_create(%r)" % p[:80].decode("latin1")})
 
 
 def nth_check(ctx, hl, cases, dist):
@@ -314,7 +348,12 @@ def nth_check(ctx, hl, cases, dist):
 
 
 FIND_PINNED = [b"[8-12]", b"[08-10]", b"7,[5-6],a[1-3]", b"[1-3]0,[9-11]", b"42,[40-44],042", b"0,[0-1],00",
-               b"n0[1-2],n[01-02]", b"x9[10-11],x[910-911]", b"a[1-3],a[2-4]", b"foo1,foo01,foo001", b"[5-6]-[0-1]"]
+               b"n0[1-2],n[01-02]", b"x9[10-11],x[910-911]", b"a[1-3],a[2-4]", b"foo1,foo01,foo001", b"[5-6]-[0-1]",
+               # look-up AFTER a poisoning word went through the name parser (hostlist_create leaves errno as it is;
+               # hostlist_find / hostname_create never clear it): names inside range records must still be found
+               b"foo[1-5],job20240929102030123456789", b"job20240929102030123456789,foo[1-5],bar7",
+               b"99999999999999999999999,[8-12],n[08-11]", b"w[0000000000000000000000042,1]-x,foo[1-5]-ib",
+               b"b[1,5-7,9,11-12],a[1-3]"]
 
 
 def tail_value(name):
@@ -457,7 +496,11 @@ def cli_check(ctx, hl, dist, cov, only=None):
     gen = WFGen(rng, cli=True, max_hosts=40)
     n = 70 if ctx.quick() else 1500
     cases = []
-    fixed = [b"foo[1-2]-[0-1]", b"foo[9-11,007]-[0-1] 12 a3", b"n[08-11]", b"a[1-3],a[2-4]", b"foo1,foo01,foo001"]
+    fixed = [b"foo[1-2]-[0-1]", b"foo[9-11,007]-[0-1] 12 a3", b"n[08-11]", b"a[1-3],a[2-4]", b"foo1,foo01,foo001",
+             # state left over from the previous comma-word (errno, the previous bracket's range table, widths)
+             b"job20240929102030123456789,b[1-3]", b"99999999999999999999999 n[08-11],a[1,5-7]",
+             b"b[1,5-7,9,11-12],a[1-3],foo[00-02,1,3,5]-ib", b"w[0000000000000000000000042,1]-x,n[1,0000000000000000000000005]-ib0",
+             b"a4294967297,a[1-2]"]
     for s in ([only] if only is not None else fixed):
         cases.append((s, None, only is not None and len(only) > 900))
     while len(cases) < n and only is None:
@@ -571,7 +614,14 @@ def gen_xcases(rng, n):
               (b"foo1,foo01,foo001", b"foo01", "padding"), (b"[1-3]0,[9-11]", b"20,10", "numeric-suffix"),
               (b"42,[40-44],042", b"42", "numeric-dup"), (b"0,[0-1],00", b"0", "zero"),
               (b"n335544330[1-2]", b"n3355443301", "bigsuffix-one-bracket"),
-              (b"n[33554433]0[1-2]", b"n3355443301", "bigsuffix-two-bracket")]
+              (b"n[33554433]0[1-2]", b"n3355443301", "bigsuffix-two-bracket"),
+              # exclusions are applied in reverse order of the command line: the poisoning name comes LATER in -x and
+              # is parsed FIRST; the name that has to match inside a range record of -w comes after it
+              (b"foo[1-5]", b"foo3,job20240929102030123456789", "after-erange-name"),
+              (b"foo[1-5]", b"job20240929102030123456789,foo3", "before-erange-name"),
+              (b"foo[1-5],job20240929102030123456789", b"foo[2-3]", "erange-name-in-w"),
+              (b"99999999999999999999999,[8-12]", b"[9-10]", "erange-numeric-in-w"),
+              (b"foo[1-5]-ib", b"w[0000000000000000000000042,1]-x,foo[00-02,1,3,5]-ib", "wide-first-then-mixed-widths")]
     out = list(pinned)
     gen = WFGen(rng, cli=True, max_hosts=25, near_max=False)
     tries = 0
@@ -605,7 +655,10 @@ def gen_filecases(rng, n, linebuf):
     """(lines, note): the text of a WCOLL / ^file -- one expression per line; pinned: lines whose length is an exact
     multiple of the reader's piece size (fgets(buf, LINEBUFSIZE)) minus the newline, and their neighbours"""
     out = [([b"a[1-3]", b"  b7 c8,d9", b"", b"[5-6]x"], "small"),
-           ([b"n[01-03]-[0-1]", b"12", b"foo1,foo01"], "two-bracket+numeric")]
+           ([b"n[01-03]-[0-1]", b"12", b"foo1,foo01"], "two-bracket+numeric"),
+           # state left over from the previous LINE (each line is one hostlist_push in the same process)
+           ([b"job20240929102030123456789", b"b[1-3]", b"n[08-11]"], "line-after-erange-name"),
+           ([b"b[1,5-7,9,11-12]", b"a[1-3]", b"w[0000000000000000000000042,1]-x", b"foo[00-02,1,3,5]-ib"], "line-after-bracket")]
     step = max(8, linebuf - 1)
     lens = []
     for k in (1, 2):
@@ -616,7 +669,7 @@ def gen_filecases(rng, n, linebuf):
     out.append(([exact_line(step - 1, b"h"), exact_line(step - 1, b"k"), b"v1"], "two-exact-lines"))
     gen = WFGen(rng, cli=True, max_hosts=12, near_max=False)
     tries = 0
-    while len(out) < 9 + n and tries < 40 * n:
+    while len(out) < 11 + n and tries < 40 * n:
         tries += 1
         lines = []
         for _ in range(rng.randrange(1, 5)):
